@@ -393,7 +393,9 @@ func (e *Exec) runHeap() *Violation {
 			for i := 0; i < N; i++ {
 				api.Insert(keys[r.Intn(S)], nextID)
 				nextID++
-				if i%2048 == 7 {
+				// the second half is an unbroken run of overwrites (C17a12: state that only a
+				// different kind of call resets)
+				if i%2048 == 7 && i < N/2 {
 					noMatch()
 				}
 				tick(1)
